@@ -533,6 +533,14 @@ func (sc *SizeCalculator) SplitToSize(text string, boundaries []Boundary) []stri
 
 		// Find split point using max limit (not target) to ensure chunks fit
 		splitPos := sc.FindSplitPointAt(remaining, boundaries, sc.config.Max.Value, sc.config.Max.Unit)
+		// The sentence/word search may look ahead of the limit. For a hard limit in
+		// characters or tokens that would leave a piece above the maximum, so fall
+		// back to the last break opportunity inside the limit when there is one.
+		if limit := sc.hardMaxPosition(); limit > 0 && splitPos > limit && limit < len(remaining) {
+			if p := lastBreakAtOrBefore(remaining, limit); p > 0 {
+				splitPos = p
+			}
+		}
 		if splitPos <= 0 || splitPos >= len(remaining) {
 			// Can't split further, add remaining as-is
 			chunks = append(chunks, remaining)
@@ -550,6 +558,40 @@ func (sc *SizeCalculator) SplitToSize(text string, boundaries []Boundary) []stri
 	}
 
 	return chunks
+}
+
+// hardMaxPosition returns the largest byte length a piece may have under a hard
+// maximum given in characters or tokens, or 0 if the maximum is soft or uses
+// another unit (those are converted by rough estimates and are not bounded).
+func (sc *SizeCalculator) hardMaxPosition() int {
+	if sc.config.Max.Type != LimitTypeHard {
+		return 0
+	}
+	switch sc.config.Max.Unit {
+	case SizeUnitCharacters:
+		return sc.config.Max.Value
+	case SizeUnitTokens:
+		ratio := sc.config.TokensPerChar
+		if ratio <= 0 {
+			ratio = 0.25
+		}
+		return int(float64(sc.config.Max.Value) / ratio)
+	}
+	return 0
+}
+
+// lastBreakAtOrBefore returns the position just after the last whitespace byte
+// at or before limit (so that text[:pos] has at most limit bytes), or 0 if none.
+func lastBreakAtOrBefore(text string, limit int) int {
+	if limit > len(text) {
+		limit = len(text)
+	}
+	for i := limit; i > 0; i-- {
+		if c := text[i-1]; c == ' ' || c == '\n' || c == '\t' || c == '\r' {
+			return i
+		}
+	}
+	return 0
 }
 
 // adjustBoundaryPositions adjusts boundary positions after a split
